@@ -2,11 +2,12 @@
 //! Bounds: U64 and U128 targets; DER magnitude strings of length 0..=BYTES+2 (all byte values);
 //! RLP single-value encodings of total length 0..=BYTES+3.
 use crate::*;
+use crate::util::*;
 use crypto_bigint::*;
 use der::asn1::UintRef;
 use der::{Decode, Encode};
 
-fn be_value(b: &[u8]) -> u128 {
+fn be_value_local(b: &[u8]) -> u128 {
     let mut v: u128 = 0;
     let mut i = 0;
     while i < b.len() { v = (v << 8) | b[i] as u128; i += 1; }
